@@ -10,6 +10,7 @@ from .values import (SInt, SBool, SBytes, SStr, SSeq, SObj, SExc, SMethod, SClos
                      Opaque, is_sym, is_intlike, is_byteslike, is_strlike)
 
 from .seqs import Fold, SymDict, ElemKind
+from .extmodels import SExt, ext_getattr, ext_str, ext_binop
 
 _MISSING = object()
 _member_descriptor = type(type("_S", (), {"__slots__": ("a",)}).a)
@@ -53,7 +54,7 @@ class InterpMixin(object):
                 n = self.call_function(m, [v], {})
                 return self.truth(self.compare("!=", n, 0))
             return True
-        if isinstance(v, (SExc, SMethod, SClosure, Opaque)):
+        if isinstance(v, (SExc, SMethod, SClosure, Opaque, SExt)):
             return True
         return bool(v)
 
@@ -72,7 +73,7 @@ class InterpMixin(object):
             return cls in (list, object)
         if isinstance(v, SObj):
             return isinstance(cls, type) and issubclass(v.cls, cls)
-        if isinstance(v, SExc):
+        if isinstance(v, (SExc, SExt)):
             return isinstance(cls, type) and issubclass(v.cls, cls)
         if isinstance(v, (SMethod, SClosure)):
             return cls is object
@@ -91,7 +92,7 @@ class InterpMixin(object):
             return str
         if isinstance(v, SSeq):
             return list
-        if isinstance(v, (SObj, SExc)):
+        if isinstance(v, (SObj, SExc, SExt)):
             return v.cls
         if isinstance(v, Opaque):
             return object
@@ -130,6 +131,8 @@ class InterpMixin(object):
             if default is not _MISSING:
                 return default
             self.py_raise(AttributeError, "'%s' object has no attribute '%s'" % (obj.cls.__name__, name))
+        if isinstance(obj, SExt):
+            return ext_getattr(self, obj, name)
         if isinstance(obj, Sym):
             if name == "__class__":
                 return self.type_of(obj)
@@ -396,7 +399,7 @@ class InterpMixin(object):
         return obj
 
     def deep_concrete(self, v, depth=0):
-        if isinstance(v, (Sym, SObj, SExc, SMethod, SClosure)):
+        if isinstance(v, (Sym, SObj, SExc, SMethod, SClosure, SExt, Opaque)):
             return False
         if isinstance(v, (list, tuple, set, frozenset)) and depth < 4:
             return all(self.deep_concrete(x, depth + 1) for x in v)
